@@ -51,13 +51,15 @@ def tcpAnalyze (req resp : TcpDb) (f : Fields) :
 
 /-- `convert_headers_to_http_format(headers, is_request)`; headers are `(name, value)` in wire
 order (`http_common::HttpHeader`, value always present for HTTP/1.x). -/
-def convertHeaders (isReq : Bool) (hs : List (String × Option String)) : List Header :=
+def convertHeader (isReq : Bool) (h : String × Option String) : Header :=
   let optional := if isReq then Gen.BundledSig.requestOptionalHeaders else Gen.BundledSig.responseOptionalHeaders
   let skip := if isReq then Gen.BundledSig.requestSkipValueHeaders else Gen.BundledSig.responseSkipValueHeaders
-  hs.map (fun h =>
-    if optional.contains h.1 then { optional := true, name := h.1, value := none }
-    else if skip.contains h.1 then { optional := false, name := h.1, value := none }
-    else { optional := false, name := h.1, value := h.2 })
+  if optional.contains h.1 then { optional := true, name := h.1, value := none }
+  else if skip.contains h.1 then { optional := false, name := h.1, value := none }
+  else { optional := false, name := h.1, value := h.2 }
+
+def convertHeaders (isReq : Bool) (hs : List (String × Option String)) : List Header :=
+  hs.map (convertHeader isReq)
 
 def asciiLower (s : String) : String := String.ofList (s.toList.map Char.toLower)
 
@@ -71,12 +73,20 @@ def absentHeaders (isReq : Bool) (hs : List (String × Option String)) : List He
 /-- `extract_traffic_classification(user_agent / server)` -/
 def trafficClass (v : Option String) : String := v.getD "???"
 
-/-- The matching observation of a parsed HTTP/1.x message: version, the header list, and the
+/-- `Http1Parser::parse_request` moves `Cookie` and `Referer` out of the header list it hands on
+(`parse_response` keeps every header). -/
+def keptHeader (isReq : Bool) (h : String × Option String) : Bool :=
+  !(isReq && (asciiLower h.1 == "cookie" || asciiLower h.1 == "referer"))
+
+def parsedHeaders (isReq : Bool) (hs : List (String × Option String)) : List (String × Option String) :=
+  hs.filter (keptHeader isReq)
+
+/-- The matching observation of an HTTP/1.x message: version, the header list on the wire, and the
 value of `User-Agent` (request) / `Server` (response) as found by the parser. -/
 def httpObsOf (isReq : Bool) (version : HttpVersion) (hs : List (String × Option String))
     (sw : Option String) : HttpObs :=
-  { version := version, horder := convertHeaders isReq hs, habsent := absentHeaders isReq hs,
-    expsw := trafficClass sw }
+  { version := version, horder := convertHeaders isReq (parsedHeaders isReq hs),
+    habsent := absentHeaders isReq (parsedHeaders isReq hs), expsw := trafficClass sw }
 
 def httpAnalyze (req resp : HttpDb) (isReq : Bool) (o : HttpObs) : Option (Option (Nat × Nat × Nat)) :=
   httpFind (if isReq then req else resp) o
